@@ -172,6 +172,14 @@ CLAIMS = {
              'reaches _exec_sql with start_transaction=True or cache.immediate set (all call sites from the AST exercised).',
         note='Crash points and the file contents seen by a new process are NOT explored (outside the technique): they reduce to the database\'s transaction guarantee under the clauses proved. '
              'Trusted: the ledger model of DB-API connections; one database per session; the body stops at its first exception.'),
+    'C35': dict(
+        text='PARTIAL proof of what pony must do so that locking is the database\'s contract: SELECT_FOR_UPDATE on every dialect builder = the plain query + FOR UPDATE [NOWAIT | SKIP LOCKED] '
+             '(SQLite: plain); get_for_update (pk / unique / lambda), Query.for_update on a real model: the locking read runs with cache.immediate inside the open (BEGIN IMMEDIATE) transaction, '
+             'hands SELECT_FOR_UPDATE with the options to the builder, is not answered from the cache for an object loaded without a lock, registers the object in cache.for_update; '
+             'ledger sessions (SQLite, PostgreSQL) for for_update / serializable / pessimistic modes over every fault point: protected reads never run in autocommit mode, PostgreSQL '
+             'SERIALIZABLE is set inside the transaction before them, and that transaction is not ended before the body ends; db_session option table; commit empties the locked set.',
+        note='Schedules of two or three sessions (who waits, who fails, final values versus serial executions) are NOT covered: outside contract-based verification. '
+             'Row-lock / write-lock / SERIALIZABLE semantics are the database\'s contract (assumed).'),
 }
 
 _NOT_BUILT = 'within reach of the technique per DESIGN.md, check not built yet'
